@@ -23,7 +23,7 @@ Print Assumptions C15_all_histories_refuted.
 Theorem C15_needs_live_tokens_partial : forall cl r s c subj styp actor req scopes aud s' i x rt lv sc sto,
   wf_clients cl = true -> op_unconfused (Exchange r c subj styp actor req scopes aud) = true ->
   exchange cl r s c subj styp actor req scopes aud = (s', OExch i x rt lv sc sto) ->
-  C15_spec.client_ok cl c = true /\ subj_live (fst s) styp subj = true /\ actor_live (fst s) actor = true.
+  C15_spec.client_ok cl c = true /\ subj_live false (fst s) styp subj = true /\ actor_live (fst s) actor = true.
 Proof. exact needs_live_tokens. Qed.
 Print Assumptions C15_needs_live_tokens_partial.
 
@@ -40,7 +40,7 @@ Theorem C15_declared_is_contained : forall cl r g nx c subj styp actor req scope
   sc = decided_scopes (policy g) scopes /\
   i = effective_type (policy g) req /\
   C15_spec.contained want i x rt lv sto = true /\
-  (forall t, sto = Some t -> t = want /\ exists n, (x = XOpaque (AT n) (tr_sub want) \/ x = XJwt (AT n) (tr_sub want) (tr_actor want)) /\
+  (forall t, sto = Some t -> t = want /\ exists n, (x = XOpaque (AT n) (tr_sub want) \/ x = XJwt (AT n) (tr_sub want) (tr_actor want) (TLife (tr_expired want) true)) /\
                                    find_tok n (toks (fst s')) = Some t) /\
   (forall m, rt = RT m -> find_rt m (rtoks (fst s')) <> None).
 Proof. exact declared_is_contained. Qed.
@@ -52,7 +52,7 @@ Print Assumptions C15_declared_is_contained.
    never a success *)
 Theorem C15_unissuable_is_error_partial : forall cl r s c subj styp actor req scopes aud,
   op_unconfused (Exchange r c subj styp actor req scopes aud) = true ->
-  C15_spec.issuable (policy (fst s)) req && negb (string_in "veto" scopes) && subj_live (fst s) styp subj && actor_live (fst s) actor = false ->
+  C15_spec.issuable (policy (fst s)) req && negb (string_in "veto" scopes) && subj_live false (fst s) styp subj && actor_live (fst s) actor = false ->
   exists st, snd (exchange cl r s c subj styp actor req scopes aud) = OErr st true /\ C15_spec.is_error st = true.
 Proof. exact unissuable_is_error. Qed.
 Print Assumptions C15_unissuable_is_error_partial.
@@ -71,3 +71,35 @@ Theorem C15_valid_exchange_succeeds : forall cl r g nx c subj styp actor req sco
   exists s' i x rt lv sc sto, exchange cl r (g, nx) c subj styp actor req scopes aud = (s', OExch i x rt lv sc sto).
 Proof. exact promised_succeeds. Qed.
 Print Assumptions C15_valid_exchange_succeeds.
+
+(* Third-party tokens (round 6): a token the provider cannot verify itself is accepted only through
+   a storage that implements TokenExchangeTokensVerifierStorage, and only IN THE ROLE its issuer
+   vouches for - as subject token (VerifyExchangeSubjectToken) ... *)
+Theorem C15_third_party_subject_role : forall cl r s c cls sub styp actor req scopes aud s' i x rt lv sc sto,
+  exchange cl r s c (Ext cls sub) styp actor req scopes aud = (s', OExch i x rt lv sc sto) ->
+  p_verifier (policy (fst s)) = true /\ ext_accepts cls false = true /\ (styp = TId \/ styp = TJwt).
+Proof. exact ext_subject_role. Qed.
+Print Assumptions C15_third_party_subject_role.
+
+(* ... as actor token (VerifyExchangeActorToken) *)
+Theorem C15_third_party_actor_role : forall cl r s c subj styp cls sub atyp req scopes aud s' i x rt lv sc sto,
+  exchange cl r s c subj styp (Some (Ext cls sub, atyp)) req scopes aud = (s', OExch i x rt lv sc sto) ->
+  p_verifier (policy (fst s)) = true /\ ext_accepts cls true = true.
+Proof. exact ext_actor_role. Qed.
+Print Assumptions C15_third_party_actor_role.
+
+(* the two roles are independent verdicts (a token good as actor only / as subject only exists) *)
+Theorem C15_roles_independent : ext_accepts EActor true = true /\ ext_accepts EActor false = false /\
+  ext_accepts ESubj false = true /\ ext_accepts ESubj true = false.
+Proof. exact ext_roles_independent. Qed.
+Print Assumptions C15_roles_independent.
+
+(* every JWT a success response contains - JWT access token or ID token - is expired exactly when
+   its client is registered with a negative lifetime, and its exp - iat is the registered lifetime *)
+Theorem C15_issued_jwt_lifetime : forall cl r g nx c subj styp actor req scopes aud s' i x rt lv sc sto l,
+  wf_clients cl = true ->
+  exchange cl r (g, nx) c subj styp actor req scopes aud = (s', OExch i x rt lv sc sto) ->
+  (exists a b, x = XIdTok a b l) \/ (exists n a b, x = XJwt n a b l) ->
+  l = TLife (C08_spec.expired_of cl (C08_spec.cred_id c)) true.
+Proof. exact issued_jwt_lifetime. Qed.
+Print Assumptions C15_issued_jwt_lifetime.
